@@ -93,12 +93,18 @@ theorem pyRepr_type_ok (t : PyType) (h : t ≠ .obj) : ∃ s, pyRepr (.type t) =
   obtain ⟨n, hn⟩ := typeName_ok t h
   exact ⟨"<class '" ++ n ++ "'>", by simp only [pyRepr, hn]; rfl⟩
 
-theorem pyRepr_int (n : Int) : pyRepr (.int n) = .ok (toString n) := by simp only [pyRepr]
+/-- `repr(n)` of an int within the digit limit (`sys.get_int_max_str_digits()`) -/
+theorem pyRepr_int (n : Int) (hn : n.natAbs < 10 ^ 4300) : pyRepr (.int n) = .ok (toString n) := by
+  simp only [pyRepr]
+  exact if_neg (Nat.not_le.mpr hn)
 
-theorem pyStr_int (n : Int) : pyStr (.int n) = .ok (toString n) := by simp only [pyStr, pyRepr]
+theorem pyStr_int (n : Int) (hn : n.natAbs < 10 ^ 4300) : pyStr (.int n) = .ok (toString n) := by
+  simp only [pyStr]
+  exact pyRepr_int n hn
 
-theorem argRepr_int (n : Int) : argRepr (.lit (.int n)) = .ok (toString n) := by
-  simp only [argRepr, pyRepr]
+theorem argRepr_int (n : Int) (hn : n.natAbs < 10 ^ 4300) : argRepr (.lit (.int n)) = .ok (toString n) := by
+  simp only [argRepr]
+  exact pyRepr_int n hn
 
 /-! ### the type-name table -/
 
